@@ -487,6 +487,13 @@ func c20history(t *testing.T, pctx context.Context, out *vharness.Out, rng *rand
 				if rng.Intn(2) == 0 {
 					must(gc.messageStore.AddMessage(ctx, []byte("after the merge")))
 				}
+				// weshnet puts no limit on the size of a message: one log entry of well over a megabyte
+				if rng.Intn(3) == 0 {
+					big := make([]byte, 1300000+rng.Intn(200000))
+					crand.Read(big)
+					must(gc.messageStore.AddMessage(ctx, big))
+					desc = append(desc, "large-message")
+				}
 				desc = append(desc, "group")
 			}
 		}
